@@ -1044,6 +1044,8 @@ class Interp:
                 return self.ctx.enumerate_of(self, a0, start)
             return list(enumerate(self.iterate(a0, frame), start))
         if f is any or f is all:
+            if isinstance(a0, Sym) and hasattr(a0, "sym_any_all"):
+                return a0.sym_any_all(self.ex, f is any)
             vals = self.iterate(a0, frame)
             for v in vals:
                 t = self.truth(v)
